@@ -26,9 +26,13 @@ DELIVER, DROP, DUP, DELAY, HOLD = "deliver", "drop", "dup", "delay", "hold"
 class Plan:
     """fault plan: {frame index -> action} and/or a predicate"""
 
-    def __init__(self, table=None, fn=None):
+    def __init__(self, table=None, fn=None, latency=None, latency_budget=0.0):
+        """latency: seconds every frame spends on the medium (a number, or a function of the frame index); it is a
+        property of the wire, not a fault: it is not recorded in `applied`"""
         self.table = dict(table or {})
         self.fn = fn
+        self.latency = latency
+        self.latency_budget = latency_budget
         self.applied = []
 
     def decide(self, n, rec):
@@ -36,6 +40,8 @@ class Plan:
         if act is None and self.fn is not None:
             act = self.fn(n, rec)
         if act is None:
+            if self.latency:
+                return (DELAY, self.latency(n) if callable(self.latency) else self.latency, "fifo")
             return (DELIVER,)
         if isinstance(act, str):
             act = (act,)
@@ -44,7 +50,8 @@ class Plan:
 
     def describe(self):
         return {"table": {str(k): list(v) if isinstance(v, tuple) else v for k, v in self.table.items()},
-                "predicate": getattr(self.fn, "__name__", None) if self.fn else None}
+                "predicate": getattr(self.fn, "__name__", None) if self.fn else None,
+                "latency": (getattr(self.latency, "__name__", "function") if callable(self.latency) else self.latency)}
 
 
 class FaultNet(Network):
@@ -58,6 +65,7 @@ class FaultNet(Network):
         self.delivered = 0
         self.frame_cap = 6000     # frame budget: beyond it the medium goes silent and the run is reported as not terminating
         self.overflow = False
+        self.last_due = {}
 
     # ------------------------------------------------------------------
     def process_pdu(self, pdu):
@@ -78,7 +86,14 @@ class FaultNet(Network):
             OneShotFunction(self.deliver, pdu)
         elif kind == DELAY:
             t = FunctionTask(self.deliver, pdu)
-            t.install_task(delta=act[1])
+            if len(act) > 2 and act[2] == "fifo":
+                # latency of the wire (not a fault): frames of one direction stay in order even when the latency jitters
+                key = (str(pdu.pduSource), str(pdu.pduDestination))
+                due = max(CLOCK.now + act[1], self.last_due.get(key, 0.0))
+                self.last_due[key] = due
+                t.install_task(when=due)
+            else:
+                t.install_task(delta=act[1])
         elif kind == HOLD:
             self.held.append(pdu)
             return
